@@ -33,8 +33,9 @@ ACTIONS = ['DoTileRequest', 'DoMapRequest', 'RenderLayer', 'DoFetch', 'DoStore',
 class World(object):
     def __init__(self, name, origin='ll', bbox=(0, 0, 640, 320), res=(80, 40, 20), tile_size=(4, 4), meta=(1, 1),
                  dims=(), dim_default='', cov=None, tile_limit=0, pixel_limit=0, source='tile', coarse=False,
-                 global_grid=None, sqrt2=False, levels=None):
+                 global_grid=None, sqrt2=False, levels=None, srs_extent=None):
         self.name = name
+        self.srs_extent = tuple(srs_extent) if srs_extent else None     # services.wms.bbox_srs: extent of the request SRS
         self.origin = origin
         self.bbox = tuple(bbox)
         self.res = tuple(res)
@@ -267,6 +268,8 @@ class App(object):
         services = {'tms': {}, 'kml': {}, 'wmts': wmts, 'wms': {'srs': [self.srs]}}
         if w.pixel_limit:
             services['wms']['max_output_pixels'] = w.pixel_limit
+        if w.srs_extent:
+            services['wms']['bbox_srs'] = [{'srs': self.srs, 'bbox': list(w.srs_extent)}]
         return {
             'globals': {'image': {'paletted': False, 'resampling_method': 'nearest'},
                         'cache': {'base_dir': self.cache_dir, 'lock_dir': os.path.join(d, 'locks'),
@@ -419,6 +422,10 @@ def worlds(tier):
         World('ul-meta', origin='ul', bbox=(0, 0, 640, 400), res=(80, 40, 20), meta=(3, 2), source='wms',
               tile_limit=6, pixel_limit=256),
         World('ll-cov', origin='ll', bbox=(0, 0, 640, 400), res=(80, 40, 25), cov=(10, 10, 330, 170)),
+        # the WMS has an explicit extent for the request SRS (far larger than the grid: ordinary requests are not
+        # clipped); oversized requests that overhang or miss it must be refused like any other oversized request
+        World('ll-srs-extent', origin='ll', bbox=(0, 0, 640, 320), res=(80, 40, 20), tile_limit=6, pixel_limit=256,
+              srs_extent=(-2000, -2000, 3000, 3000)),
         World('gm4', global_grid='GLOBAL_MERCATOR', levels=4),
         World('gg3' if tier != 'thorough' else 'gg4', global_grid='GLOBAL_GEODETIC', levels=3 if tier != 'thorough' else 4),
     ]
@@ -664,6 +671,17 @@ def random_request(rng, w):
             ls = rng.choice([['fine'], ['coarse'], ['coarse', 'fine'], ['fine', 'coarse']])
         pw = rng.choice([1, 2, 3, 4, 5, 6, 8, 9, 10]) * tw // 2
         ph = rng.choice([1, 2, 3, 4, 5, 6, 8, 9, 10]) * th // 2
+        if w.srs_extent and w.pixel_limit and rng.random() < 0.3:
+            # far above the pixel limit, reaching only a few pixels into the SRS extent of the service (or missing it)
+            L = 0
+            r0 = w.res[0]
+            pw = ph = 60
+            inside = rng.choice([0, 3, 8, 12])
+            ex0 = (w.srs_extent[0] - w.bbox[0]) // r0
+            ey0 = (w.srs_extent[1] - w.bbox[1]) // r0
+            px = ex0 - (pw - inside) if inside else ex0 - pw - 5
+            py = ey0 - (ph - inside) if rng.random() < 0.7 else 0
+            return {'kind': 'map', 'ls': ls, 'L': L, 'px': px, 'py': py, 'pw': pw, 'ph': ph}
         if rng.random() < 0.3 and w.pixel_limit:
             # around the pixel limit
             pw = rng.choice([w.tile_size[0] * 4, w.tile_size[0] * 4 + 1, w.tile_size[0] * 4 - 1])
